@@ -38,7 +38,9 @@ def main():
             os.makedirs(os.path.join(wt, crate, "tests"), exist_ok=True)
             tdst = os.path.join(wt, crate, "tests", "seed_demo.rs"); shutil.copy(os.path.join(dst, demos[0]), tdst)
             cmd = "cargo test -p %s --offline %s -j 6 --test seed_demo" % (crate, feat)
-            rc, out = sh(cmd, cwd=wt, env=tdir); os.remove(tdst)
+            mf = re.search(r'RUSTFLAGS="([^"]*)"', meta.get("demo_cmd", ""))
+            envd = dict(tdir); envd.update({"RUSTFLAGS": mf.group(1)} if mf else {})
+            rc, out = sh(cmd, cwd=wt, env=envd); os.remove(tdst)
         elif os.path.isdir(os.path.join(dst, "demo")):
             # a demo crate with path dependencies on the scratch tree: repoint them, exit status decides
             dd = os.path.join(wt, "seed_demo_crate"); shutil.rmtree(dd, ignore_errors=True); shutil.copytree(os.path.join(dst, "demo"), dd, ignore=shutil.ignore_patterns("target"))
